@@ -25,6 +25,8 @@ def run(prop, tier, seed):
         violations.append(("model", mc["violation"], p))
     elif not mc["ok"]:
         print(mc["out"][-3000:]); raise SystemExit("INFRA: TLC failed on MxChannel")
+    import honest
+    honest.check(bdir, wd, changen.suites(), "changen")      # every suite's undisturbed connection works (vacuity guard)
     if prop == "C02":
         eps = changen.episodes(tier, seed, prop) + changen.bit_episodes(tier, seed)
     else:
@@ -78,7 +80,7 @@ def run(prop, tier, seed):
         ndl = 0
         for l in lines:
             d = json.loads(l)
-            if d.get("ev") == "deliver" and any(x.get("ok") == 1 for x in d.get("dlv", [])):
+            if d.get("ev") == "deliver" and d.get("ep") in ("c0", "s0") and any(x.get("ok") == 1 for x in d.get("dlv", [])):
                 ndl += 1
             if d.get("ev") == "Reset":
                 su = meta.get(d.get("tag"), {}).get("suite")
